@@ -30,6 +30,7 @@ import (
 	"sort"
 	"strconv"
 	"strings"
+	"time"
 
 	"github.com/graphql-go/graphql"
 	"github.com/graphql-go/graphql/gqlerrors"
@@ -156,10 +157,23 @@ func c12Schema() graphql.Schema {
 		mf[fmt.Sprintf("ok%d", i)] = &graphql.Field{Type: graphql.String, Resolve: str("ok")}
 	}
 	m := graphql.NewObject(graphql.ObjectConfig{Name: "Mutation", Fields: mf})
+	sf := graphql.Fields{}
+	for i := 1; i <= 3; i++ {
+		v := fmt.Sprintf("event%d", i)
+		sf[fmt.Sprintf("s%d", i)] = &graphql.Field{Type: graphql.String,
+			Subscribe: func(p graphql.ResolveParams) (interface{}, error) {
+				c := make(chan interface{}, 1)
+				c <- v
+				close(c)
+				return c, nil
+			},
+			Resolve: func(p graphql.ResolveParams) (interface{}, error) { return p.Source, nil }}
+	}
+	sub := graphql.NewObject(graphql.ObjectConfig{Name: "Subscription", Fields: sf})
 	dir := graphql.NewDirective(graphql.DirectiveConfig{Name: "tag", Locations: []string{graphql.DirectiveLocationField},
 		Args: graphql.FieldConfigArgument{"za": &graphql.ArgumentConfig{Type: graphql.Int}, "yb": &graphql.ArgumentConfig{Type: graphql.Int},
 			"xc": &graphql.ArgumentConfig{Type: graphql.Int}, "wd": &graphql.ArgumentConfig{Type: graphql.Int}}})
-	s, err := graphql.NewSchema(graphql.SchemaConfig{Query: q, Mutation: m, Types: []graphql.Type{dog, cat, human, robot, catOrDog, inx, iny},
+	s, err := graphql.NewSchema(graphql.SchemaConfig{Query: q, Mutation: m, Subscription: sub, Types: []graphql.Type{dog, cat, human, robot, catOrDog, inx, iny},
 		Directives: append([]*graphql.Directive{dir}, graphql.SpecifiedDirectives...)})
 	if err != nil {
 		panic(err)
@@ -235,6 +249,7 @@ func c12Corpus() []c12Req {
 		q("rule", `{ pets { ... on Human { name } ... on Robot { name } } human { ... on Dog { name } } }`),
 		q("rule", `{ aab ...F ...G } fragment F on Int { x } fragment G on Color { y }`), q("rule", `{ human pets named { name { x } } }`),
 		q("rule", `subscription { aab }`), q("rule", `{ aab`), q("rule", `{ aab } }`), q("rule", `query { echo(n: 99999999999) echo2: echo(n: 1.5) }`),
+		q("subscription", `subscription { s2 }`), q("subscription", `subscription { s1 s2 s3 }`), q("subscription", `subscription { z: s3 a: s1 m: s2 }`),
 		{Kind: "operation", Query: `query A { aab } query B { aac }`, Op: "C"}, {Kind: "operation", Query: `query A { aab } query B { aac }`},
 		{Kind: "operation", Query: `query A { aab } query B { aac }`, Op: "B"},
 	}
@@ -349,6 +364,37 @@ func c12ViaCache(s *graphql.Schema, cache *graphql.PlanCache, rq c12Req) (out st
 	return out
 }
 
+// the first result delivered by ExecuteSubscription
+func c12Subscribe(s *graphql.Schema, rq c12Req) (out string) {
+	if p := guard(func() {
+		doc, err := gqlparser.Parse(gqlparser.ParseParams{Source: source.NewSource(&source.Source{Body: []byte(rq.Query), Name: "GraphQL request"})})
+		if err != nil {
+			out = c12Marshal(&graphql.Result{Errors: gqlerrors.FormatErrors(err)})
+			return
+		}
+		if vr := graphql.ValidateDocument(s, doc, nil); !vr.IsValid {
+			out = c12Marshal(&graphql.Result{Errors: vr.Errors})
+			return
+		}
+		ctx, cancel := context.WithCancel(context.Background())
+		defer cancel()
+		ch := graphql.ExecuteSubscription(graphql.ExecuteParams{Schema: *s, AST: doc, OperationName: rq.Op, Args: rq.Vars, Context: ctx})
+		select {
+		case r, ok := <-ch:
+			if !ok {
+				out = "closed without a result"
+				return
+			}
+			out = c12Marshal(r)
+		case <-time.After(5 * time.Second):
+			out = "no result within 5s"
+		}
+	}); p != "" {
+		return p
+	}
+	return out
+}
+
 func c12Validate(s *graphql.Schema, rq c12Req) (out string) {
 	if p := guard(func() {
 		doc, err := gqlparser.Parse(gqlparser.ParseParams{Source: source.NewSource(&source.Source{Body: []byte(rq.Query), Name: "GraphQL request"})})
@@ -395,6 +441,11 @@ func c12RunAll(reqs []c12Req, reps int) []c12Seen {
 		}
 		for j := 0; j < n; j++ {
 			i := (rep*31 + j*st) % n
+			if reqs[i].Kind == "subscription" {
+				c12Add(&seen[i].Do, c12Subscribe(&s, reqs[i]))
+				c12Add(&seen[i].Cache, seen[i].Do[0])
+				continue
+			}
 			c12Add(&seen[i].Do, c12Do(&s, reqs[i]))
 			if rep%2 == 0 {
 				c12Add(&seen[i].Cache, c12ViaCache(&s, cache, reqs[i]))
@@ -482,7 +533,7 @@ var c12KnownSites = map[string]string{
 	"schema.go:NewSchema:schema.typeMap":                      "implementation lists / interface assertions; construction-time, observed through possibleTypes in the corpus",
 	"schema.go:assertObjectImplementsInterface:ifaceFieldMap": "construction-time error choice only",
 	"schema.go:typeMapReducer:fieldMap":                       "builds the type map; construction-time error choice only",
-	"subscription.go:ExecuteSubscription:fields":              "subscription root field choice (C15's entry point, not exercised by Do)",
+	"subscription.go:ExecuteSubscription:fields":              "minimum by document position (then name): independent of the order; exercised by the subscription requests",
 	"util.go:appendFields:origin":                             "copies a map into a map",
 	"values.go:coerceValue:ttype.Fields()":                    "builds a map keyed by field name",
 	"values.go:isValidInputValue:fields":                      "sorted: field names collected then sort.Strings (site_by_name)",
@@ -765,7 +816,9 @@ func genC12(tier string, seed uint64, n int, e *Emitter) {
 					len(outs), path, where, c12FirstDiff(outs[0], outs[1]), c12Clip(outs[0]), c12Clip(outs[1]))
 			}
 		}
-		if len(all.Do) > 1 {
+		if len(all.Do) > 1 && rq.Kind == "subscription" {
+			report("first result of ExecuteSubscription(...)", all.Do)
+		} else if len(all.Do) > 1 {
 			report("json.Marshal(Do(...))", all.Do)
 		}
 		if len(all.Valid) > 1 {
